@@ -34,7 +34,7 @@ class Term:
         return hash(self.dg)
 
     def __reduce__(self):
-        return Term, (self.op, *self.args)
+        return _restore, (self.op, self.args, self.dg)
 
     def show(self, depth: int = 6) -> str:
         if not self.args:
@@ -67,7 +67,15 @@ class Term:
         return sum(1 for _ in self.walk())
 
 
+def _restore(op, args, dg):
+    """Unpickle without re-hashing (the digest travels with the term)."""
+    self = Term.__new__(Term)
+    self.op, self.args, self.dg = op, args, dg
+    return self
+
+
 NONE = Term('none')
+_UNSTATE: dict = {}
 
 
 def term(value: typing.Any) -> Term:
@@ -92,8 +100,15 @@ def unstate(value: typing.Optional[bytes]) -> Term:
     """State bytes -> term (empty / missing state is NONE)."""
     if not value:
         return NONE
-    loaded = pickle.loads(value)
-    return loaded if isinstance(loaded, Term) else term(loaded)
+    key = bytes(value)
+    cached = _UNSTATE.get(key)
+    if cached is None:
+        loaded = pickle.loads(key)
+        cached = loaded if isinstance(loaded, Term) else term(loaded)
+        if len(_UNSTATE) > 512:
+            _UNSTATE.clear()
+        _UNSTATE[key] = cached
+    return cached
 
 
 def _log(path: typing.Optional[str], record: dict) -> None:
